@@ -359,6 +359,12 @@ impl RuntimeContract {
     /// Push a pending contract to a vector of contracts if the contract to add isn't already
     /// present in the vector, according to the notion of contract equality defined in
     /// [crate::eval::contract_eq].
+    ///
+    /// Dropping a contract is only unobservable if the one that is kept blames the same party:
+    /// the labels must at least have the same polarity. The same contract can reach the same
+    /// value with opposite polarities, typically for `T` in `Array T -> Array T` when `T` is a
+    /// type alias and the function returns its argument: for a higher-order `T`, keeping only the
+    /// label of the domain would blame the function for a misuse of the result by the caller.
     pub fn push_dedup(
         contracts: &mut Vec<RuntimeContract>,
         env1: &Environment,
@@ -373,6 +379,7 @@ impl RuntimeContract {
                 increment!("contracts:equality-checks");
 
                 if !c.can_have_poly_ctrs()
+                    && c.label.polarity == ctr.label.polarity
                     && contract_eq::contract_eq(&c.contract, env1, &ctr.contract, env2)
                 {
                     increment!("contracts:deduped");
